@@ -205,15 +205,21 @@ func (session *HermesSession) Run(workingDir string, args []string, logID string
 			if err != nil {
 				return err
 			}
-			LoadYear(&g, &bbbShared, 1900+g.J)
+			if err = LoadYear(&g, &bbbShared, 1900+g.J); err != nil {
+				return err
+			}
 			// met format, one year per weather files
 		} else if driConfig.WeatherFileFormat == 0 {
 			herPath.vwdatTemplate = path.Join(driConfig.WeatherRootFolder, driConfig.WeatherFolder, driConfig.WeatherFile)
 			herPath.SetVwdatNoExt(g.FCODE)
 			VWDAT := herPath.VWdat(g.J)
 			bbbShared = NewWeatherDataShared(1, g.CO2KONZ)
-			WetterK(VWDAT, 1900+g.J, &g, &bbbShared, &herPath, &driConfig)
-			LoadYear(&g, &bbbShared, 1900+g.J)
+			if err = WetterK(VWDAT, 1900+g.J, &g, &bbbShared, &herPath, &driConfig); err != nil {
+				return err
+			}
+			if err = LoadYear(&g, &bbbShared, 1900+g.J); err != nil {
+				return err
+			}
 		} else if driConfig.WeatherFileFormat == 2 {
 			yearEnde, _, _ := KalenderDate(g.ENDE)
 			years := yearEnde - g.ANJAHR + 1
@@ -222,7 +228,9 @@ func (session *HermesSession) Run(workingDir string, args []string, logID string
 			if err != nil {
 				return err
 			}
-			LoadYear(&g, &bbbShared, 1900+g.J)
+			if err = LoadYear(&g, &bbbShared, 1900+g.J); err != nil {
+				return err
+			}
 		}
 
 		Init(&g)
@@ -331,11 +339,17 @@ func (session *HermesSession) Run(workingDir string, args []string, logID string
 				g.TJAHRSUM = 0
 
 				if driConfig.WeatherFileFormat == 1 || driConfig.WeatherFileFormat == 2 {
-					LoadYear(&g, &bbbShared, 1900+g.J)
+					if err := LoadYear(&g, &bbbShared, 1900+g.J); err != nil {
+						return err
+					}
 				} else if driConfig.WeatherFileFormat == 0 {
 					VWDAT := herPath.VWdat(g.J)
-					WetterK(VWDAT, 1900+g.J, &g, &bbbShared, &herPath, &driConfig)
-					LoadYear(&g, &bbbShared, 1900+g.J)
+					if err := WetterK(VWDAT, 1900+g.J, &g, &bbbShared, &herPath, &driConfig); err != nil {
+						return err
+					}
+					if err := LoadYear(&g, &bbbShared, 1900+g.J); err != nil {
+						return err
+					}
 				}
 			}
 			// set weather input data as daily output
